@@ -40,10 +40,11 @@ type SearchStep struct {
 	TwinSched  []Sched `json:"twin_sched,omitempty"`   // one per twin (interleaved among themselves)
 	SoftToHard bool    `json:"soft_to_hard,omitempty"` // twins get WithNodes(N of the primary) instead of the soft limit
 	Sweep      *Sweep  `json:"sweep,omitempty"`
-	Clear      bool    `json:"clear,omitempty"`    // Clear() before this search (all persistent engines)
-	Resize     int     `json:"resize,omitempty"`   // ResizeTT(bytes) before this search
-	Play       string  `json:"play"`               // move to play afterwards: "best", "" (none; search the same root again) or UCI text
-	Research   bool    `json:"research,omitempty"` // search the same root once more with a small budget afterwards (engine reusable)
+	Clear      bool    `json:"clear,omitempty"`       // Clear() before this search (all persistent engines)
+	ClearFirst bool    `json:"clear_first,omitempty"` // Clear() before the ResizeTT of this step instead of after it
+	Resize     int     `json:"resize,omitempty"`      // ResizeTT(bytes) before this search
+	Play       string  `json:"play"`                  // move to play afterwards: "best", "" (none; search the same root again) or UCI text
+	Research   bool    `json:"research,omitempty"`    // search the same root once more with a small budget afterwards (engine reusable)
 }
 
 // Sweep runs the same request from the same engine state (clones) at many
@@ -146,6 +147,14 @@ func (r *searchRun) run() {
 			return
 		}
 		st := &sc.Steps[si]
+		if st.Clear && st.ClearFirst {
+			prim.Clear()
+			for _, t := range twins {
+				t.Clear()
+			}
+			r.stat("fault_clear", 1)
+			r.hist("%d CLEAR", si)
+		}
 		if st.Resize > 0 {
 			prim.ResizeTT(st.Resize)
 			for _, t := range twins {
@@ -155,7 +164,7 @@ func (r *searchRun) run() {
 			r.stat("fault_resize", 1)
 			r.hist("%d RESIZE %d", si, st.Resize)
 		}
-		if st.Clear {
+		if st.Clear && !st.ClearFirst {
 			prim.Clear()
 			for _, t := range twins {
 				t.Clear()
@@ -233,6 +242,23 @@ func (r *searchRun) run() {
 				}
 			}
 			r.stat("twin_comparisons", int64(len(tres)))
+		}
+
+		// a cleared engine is in the same state as a new one of that size
+		if st.Clear && twinnable(req, &res) && sc.Twins > 0 {
+			fresh := search.New(ttBytes)
+			nb, _ := engineBoard(g)
+			fres := runGo(fresh, nb, req, st.Sched, nil, nil)
+			r.account(&fres, req, g)
+			vs := compareTwins("cleared engine", "new engine", &res, &fres, false, si)
+			for i := range vs {
+				vs[i].Kind = "fresh-" + vs[i].Kind[len("twin-"):]
+				if vs[i].Kind == "fresh-state" {
+					continue // the statement speaks about results, not about the bytes Clear leaves
+				}
+				r.out.Violations = append(r.out.Violations, vs[i])
+			}
+			r.stat("fresh_engine_comparisons", 1)
 		}
 
 		// the same instance must be searchable again
